@@ -365,4 +365,163 @@ theorem ghostReal_spec (P : Int → Int) (Y : Int → List Nat) (ldim N : Nat) (
       rw [hgd, lookup_toG P Y _ _ (htab _ _ ht) nd.glob hin hpp]
       rfl
 
+/-! ### assembly -/
+
+/-- the state determined by the global mesh (`AllC w`, `Vw w`, `payW w`) and the new partition `partW w` -/
+structure IsLayout (w w' : World RankState) : Prop where
+  len : w'.length = w.length
+  rank : ∀ (q : Nat) (s s' : RankState), w[q]? = some s → w'[q]? = some s' →
+    s'.oldN = s.oldN ∧ s'.newN = s.newN ∧ s'.nUnused = s.nUnused ∧
+    s'.cells.Nodup ∧ (s'.nodes.map (·.glob)).Nodup ∧
+    (∀ c, c ∈ s'.cells ↔ AllC w c ∧ ∃ v ∈ c.nodes, partW w v = (q : Int)) ∧
+    (∀ nd, nd ∈ s'.nodes ↔ Vw w nd.glob ∧ nd.part = partW w nd.glob ∧ nd.payload = payW w nd.glob ∧
+      (nd.part = (q : Int) ∨ ∃ c ∈ s'.cells, nd.glob ∈ c.nodes))
+
+theorem table_filter (P : Int → Int) (Y : Int → List Nat) (me : Nat) (nodes : List DNode) (f : DNode → Bool)
+    (ht : Table P Y me nodes) : Table P Y me (nodes.filter f) :=
+  ⟨(ht.1.sublist (List.Sublist.map _ List.filter_sublist)), fun nd hnd => ht.2 nd (List.mem_filter.mp hnd).1⟩
+
+/-- the last two steps on one rank: unreferenced ghosts removed, ghosts refreshed -/
+def finishRank (Y : Int → List Nat) (q : Nat) (s : RankState) : RankState :=
+  { (pruneRank q s) with nodes := (pruneRank q s).nodes.map (fixNode Y q) }
+
+section Main
+variable {ldim N : Nat} {w : World RankState} (H : ShufHyp ldim N w)
+
+include H in
+theorem shufflin_main (hnp : 2 ≤ w.length) : ∃ w', shufflin ldim w = some w' ∧ IsLayout w w' := by
+  have hu := uniq_allC H
+  have hS := allC_verts H
+  have hw1 := nodeWorld_inv H
+  obtain ⟨w2, he2, hl2, hw2, hch2⟩ := phasesL_spec (partW w) (payW w) (AllC w) (Vw w) hu hS (List.range NGROUP)
+    List.nodup_range (nodeWorld w) hw1
+  have hl1 : (nodeWorld w).length = w.length := by unfold nodeWorld; exact List.length_mapIdx
+  have hl3 : (w2.mapIdx pruneRank).length = w.length := by rw [List.length_mapIdx, hl2, hl1]
+  have hget3 : ∀ (q : Nat) (s3 : RankState), (w2.mapIdx pruneRank)[q]? = some s3 →
+      ∃ s2, w2[q]? = some s2 ∧ s3 = pruneRank q s2 := by
+    intro q s3 h
+    rw [List.getElem?_mapIdx] at h
+    cases hq : w2[q]? with
+    | none => rw [hq] at h; cases h
+    | some s => rw [hq] at h; exact ⟨s, rfl, by simpa using h.symm⟩
+  have hg := ghostReal_spec (partW w) (payW w) ldim N (w2.mapIdx pruneRank)
+    (by
+      intro q s3 h
+      obtain ⟨s2, hs2, rfl⟩ := hget3 q s3 h
+      exact table_filter _ _ _ _ _ (hw2.table q s2 hs2))
+    (by
+      intro q s3 h nd hnd
+      obtain ⟨s2, hs2, rfl⟩ := hget3 q s3 h
+      have hv := hw2.known q s2 hs2 nd (List.mem_filter.mp hnd).1
+      obtain ⟨a, b, c, d, e⟩ := vw_facts H nd.glob hv
+      rw [hl3]; exact ⟨a, b, c, d, e⟩)
+    (by
+      intro q s3 h nd hnd p t3 ht hp
+      obtain ⟨s2, hs2, rfl⟩ := hget3 q s3 h
+      obtain ⟨t2, ht2, rfl⟩ := hget3 p t3 ht
+      have hv := hw2.known q s2 hs2 nd (List.mem_filter.mp hnd).1
+      obtain ⟨od, hod, hog⟩ := List.mem_map.mp (hw2.owner nd.glob hv p t2 ht2 hp)
+      refine List.mem_map.mpr ⟨od, ?_, hog⟩
+      unfold pruneRank
+      rw [List.mem_filter]
+      refine ⟨hod, ?_⟩
+      have := ((hw2.table p t2 ht2).2 od hod).1
+      rw [hog, hp] at this
+      simp [this])
+    (by rw [hl3]; exact H.size)
+  refine ⟨(w2.mapIdx pruneRank).mapIdx (fun q s => { s with nodes := s.nodes.map (fixNode (payW w) q) }), ?_, ⟨?_, ?_⟩⟩
+  · unfold shufflin
+    have h1 : ¬ w.length ≤ 1 := by omega
+    simp only [h1, if_false, H.synced, Bool.not_true, Bool.false_eq_true]
+    rw [nodePhase_eq H]
+    simp only [Option.bind_some]
+    have : cellPhases (nodeWorld w) = phasesL (List.range NGROUP) (nodeWorld w) := rfl
+    rw [this, he2]
+    simp only [Option.bind_some]
+    exact hg
+  · rw [List.length_mapIdx]; exact hl3
+  · intro q s s4 hs hs4
+    rw [List.getElem?_mapIdx] at hs4
+    cases hq3 : (w2.mapIdx pruneRank)[q]? with
+    | none => rw [hq3] at hs4; cases hs4
+    | some s3 =>
+      rw [hq3] at hs4
+      simp only [Option.map_some, Option.some.injEq] at hs4
+      obtain ⟨s2, hs2, rfl⟩ := hget3 q s3 hq3
+      subst hs4
+      have hs1 : (nodeWorld w)[q]? = some { s with nodes := (nodesSentTo w q).foldl (ins (·.glob)) s.nodes } := by
+        unfold nodeWorld; rw [List.getElem?_mapIdx, hs]; rfl
+      obtain ⟨c1, c2, c3, _, c5⟩ := hch2 q _ s2 hs1 hs2
+      have hcells : ∀ c, c ∈ s2.cells ↔ AllC w c ∧ ∃ v ∈ c.nodes, partW w v = (q : Int) := by
+        intro c
+        rw [c5 c]
+        by_cases hin : c.group ∈ List.range NGROUP
+        · simp only [hin, if_true]; rw [allC_nodeWorld]
+        · simp only [hin, if_false]
+          constructor
+          · intro hc
+            exact absurd (List.mem_range.mpr (H.cellVerts s (mem_of_get hs) c hc).1) hin
+          · rintro ⟨⟨r, t, ht, hc⟩, _⟩
+            exact absurd (List.mem_range.mpr (H.cellVerts t (mem_of_get ht) c hc).1) hin
+      have ht2 := hw2.table q s2 hs2
+      refine ⟨c1, c2, c3, hw2.cellsNd q s2 hs2, ?_, hcells, ?_⟩
+      · show (List.map (·.glob) (List.map (fixNode (payW w) q) (pruneRank q s2).nodes)).Nodup
+        rw [List.map_map]
+        have : ((fun (x : DNode) => x.glob) ∘ fixNode (payW w) q) = fun x => x.glob := by
+          funext x; simp only [Function.comp, fixNode]; split <;> rfl
+        rw [this]
+        exact (table_filter _ _ _ _ _ ht2).1
+      · intro nd
+        show nd ∈ List.map (fixNode (payW w) q) (pruneRank q s2).nodes ↔ _
+        rw [List.mem_map]
+        constructor
+        · rintro ⟨x, hx, rfl⟩
+          unfold pruneRank at hx
+          rw [List.mem_filter] at hx
+          obtain ⟨hx1, hx2⟩ := hx
+          obtain ⟨t1, t2⟩ := ht2.2 x hx1
+          have hglob : (fixNode (payW w) q x).glob = x.glob := by unfold fixNode; split <;> rfl
+          have hpart : (fixNode (payW w) q x).part = x.part := by unfold fixNode; split <;> rfl
+          have hpay : (fixNode (payW w) q x).payload = payW w x.glob := by
+            unfold fixNode; split
+            · rename_i h; exact t2 h
+            · rfl
+          rw [hglob, hpart, hpay]
+          refine ⟨hw2.known q s2 hs2 x hx1, t1, rfl, ?_⟩
+          simp only [Bool.or_eq_true, beq_iff_eq, List.any_eq_true, List.contains_eq_mem, decide_eq_true_eq] at hx2
+          exact hx2
+        · rintro ⟨hv, hp, hy, hk⟩
+          have hpres : nd.glob ∈ s2.nodes.map (·.glob) := by
+            rcases hk with hk | ⟨c, hc, hvc⟩
+            · exact hw2.owner nd.glob hv q s2 hs2 (by rw [← hp]; exact hk)
+            · exact (hw2.cellsS q s2 hs2 c hc).2 nd.glob hvc
+          obtain ⟨x, hx, hxg⟩ := List.mem_map.mp hpres
+          obtain ⟨t1, t2⟩ := ht2.2 x hx
+          refine ⟨x, ?_, ?_⟩
+          · unfold pruneRank
+            rw [List.mem_filter]
+            refine ⟨hx, ?_⟩
+            simp only [Bool.or_eq_true, beq_iff_eq, List.any_eq_true, List.contains_eq_mem, decide_eq_true_eq]
+            rcases hk with hk | ⟨c, hc, hvc⟩
+            · left; rw [t1, hxg, ← hp]; exact hk
+            · right; exact ⟨c, hc, by rw [hxg]; exact hvc⟩
+          · cases nd with
+            | mk g p y =>
+              simp only at hxg hp hy
+              unfold fixNode
+              split
+              · rename_i h
+                cases x with
+                | mk a b c =>
+                  simp only at hxg t1 t2 h
+                  simp only [DNode.mk.injEq]
+                  exact ⟨hxg, by rw [t1, hxg, hp], by rw [t2 h, hxg, hy]⟩
+              · cases x with
+                | mk a b c =>
+                  simp only at hxg t1
+                  simp only [DNode.mk.injEq]
+                  exact ⟨hxg, by rw [t1, hxg, hp], by rw [hxg, hy]⟩
+
+end Main
+
 end Refine.Lemmas.ShufflinSpec
